@@ -1,7 +1,7 @@
 """C02 — Wasserstein distance = true min-sum matching cost (explorer A)."""
 import numpy as np
 
-from checks.common import AFF, INF, aff, farr, iarr, scale_of, call_warn, pair_cases, is_num
+from checks.common import AFF, INF, aff, farr, iarr, scale_of, call_warn, pair_cases, is_num, medium_diagram
 from mc.enumerate import lattice_points, distinct_permutations
 from oracles import matching as om
 
@@ -9,7 +9,7 @@ PROPERTY = "C02"
 RULE = (
     "all ordered pairs (S,T) of multisets of <= n lattice points {0<=b<=d<=G} (diagonal points, "
     "repeats, empty diagram included); per pair: 5 affine variants, all row permutations, "
-    "list/int/float containers, appended infinite-death points. state = one (S,T) pair; transition "
+    "list/int/float containers, appended infinite-death points; medium diagrams of 5..14 (thorough ..30) points, all ordered pairs against an independently built assignment problem. state = one (S,T) pair; transition "
     "= one execution of persim.wasserstein; non-trivial = an optimal matching mixes diagonal and "
     "cross pairings, or several optimal matchings exist."
 )
@@ -22,10 +22,44 @@ RTOL = 1e-9
 
 
 def bounds(tier):
-    return {"spaces": BOUNDS[tier], "aff": AFF, "rtol": RTOL}
+    return {"spaces": BOUNDS[tier], "aff": AFF, "rtol": RTOL, "medium_family": MEDIUM[tier]}
+
+
+MEDIUM = {"quick": {"n": [5, 6, 8, 10, 14], "k": 2}, "thorough": {"n": [5, 6, 7, 8, 10, 14, 20, 30], "k": 4}}
+
+
+def medium_members(tier):
+    m = MEDIUM[tier]
+    return [(n, k, lat) for lat in (True, False) for n in m["n"] for k in range(m["k"])]
+
+
+def run_medium(case, ctx):
+    import persim
+
+    a, b = case["a"], case["b"]
+    S, T = medium_diagram(int(a[0]), int(a[1]), bool(a[2])), medium_diagram(int(b[0]), int(b[1]), bool(b[2]))
+    ref = om.wasserstein_large_ref(S, T)
+    ctx.state(("medium", a, b))
+    if a != b:
+        ctx.nontriv("medium_size_pair", key=("medium", a, b))
+    v, _ = call_warn(ctx, persim.wasserstein, farr(S), farr(T))
+    check_value(ctx, "value-medium", v, ref, 1e3, "medium diagrams %r vs %r" % (a, b), S, T)
+    ctx.outcome(round(float(v), 6) if is_num(v) else repr(v))
+    r2, _ = call_warn(ctx, persim.wasserstein, farr(S[::-1]), farr(T), matching=True)
+    check_value(ctx, "value-medium", r2[0] if isinstance(r2, tuple) else r2, ref, 1e3, "medium diagrams, first reversed, matching=True", S, T)
 
 
 def cases(tier):
+    mem = medium_members(tier)
+    for x in range(len(mem)):
+        for y in range(len(mem)):
+            if mem[x][2] == mem[y][2]:
+                yield {"kind": "medium", "a": list(mem[x]), "b": list(mem[y])}
+    for c in small_cases(tier):
+        yield c
+
+
+def small_cases(tier):
     for sp in BOUNDS[tier]:
         alphabet = [tuple(p) for p in sp["alphabet"]] if "alphabet" in sp else lattice_points(sp["G"])
         for c in pair_cases(alphabet, sp["n"]):
@@ -43,6 +77,8 @@ def check_value(ctx, sig, v, ref, scale, what, S, T):
 def run_case(case, ctx):
     import persim
 
+    if case.get("kind") == "medium":
+        return run_medium(case, ctx)
     S, T = case["S"], case["T"]
     ref, info = om.wasserstein_ref(S, T)
     ctx.state((S, T))
